@@ -60,6 +60,8 @@ FLAVOURS["edge"] = '''Flavour for this property: wrong only AT AN EDGE of the pr
 
 FLAVOURS["history"] = '''Flavour for this property: wrong only for a particular HISTORY or SEQUENCE of calls. Each change must give exactly the original result whenever an object is used once, freshly constructed - and break the property only on a second or later use, or for a particular order of calls: an object (message, container, header, SA key object, hash / cipher object, EAP packet, attribute map, builder target) that is decoded into, encoded, protected, or set TWICE; decoding into a struct that already holds data from an earlier decode; encoding after a decode versus after construction; a setter called again with a smaller or larger value; two SAs or two messages built from the same input slices; a derived field or cache that is not recomputed; a slice that is extended in place the second time; a Reset that is missing or in the wrong place so that the first use is right and the next one is not; an error on one call that leaves the object half-updated for the next. The existing tests construct fresh objects nearly everywhere, so such changes keep them green. 1-25 changed lines. State clearly in NOTES.md the shortest sequence of calls that shows the break.'''
 
+FLAVOURS["cooperating"] = '''Flavour for this property: change A consists of TWO COOPERATING SITES that each look fine alone. It has two hunks in different functions (or files): a helper and one of its callers, a constructor and a consumer of the constructed object, a constant / table and the code that uses it, a setter and a getter, a producer of a slice and the code that keeps it. Each hunk taken by itself is behaviour-preserving (or even an improvement) - e.g. a helper now returns a sub-slice of its argument "because every caller copies anyway" and, elsewhere, one caller drops its "redundant" copy; a length check is moved from the callee into the callers and one caller is forgotten; a default is changed in a constructor and a consumer still assumes the old one; a field becomes lazily initialised and one reader bypasses the accessor; an error is now reported through a second return value and one caller ignores it - and only the combination breaks the property. Say in NOTES.md why each hunk alone is harmless. Change B manifests only under a FAULT or a particular INTERLEAVING, if the property admits one: the random source or a callee failing at a particular point, an error path that leaves an object half-updated or returns a nil error together with a partial result, a failed verification after which state was already modified, a recover() that swallows something, two goroutines using independent objects that now share something hidden (a package-level scratch buffer, cache, sync.Pool entry, lazily initialised table, a hash object stored in a registry). If the property admits neither, make B a second two-site change. 4-40 changed lines each.'''
+
 NEUTRAL_SMALL = '''You are helping to evaluate a verification effort by playing the role of a careful maintainer who REFACTORS code without changing behaviour. ''' + HEAD + '''
 Your task: produce FOUR independent, realistic, BEHAVIOUR-PRESERVING changes (call them a, b, c, d) to the library's non-test source inside the code this property is anchored in. Each change on its own must
   1. leave the property above TRUE for every input / configuration / history in its quantifier (be strict about this: no change of any observable result, error/no-error outcome, or state for in-domain inputs; and no new crash on out-of-domain input either),
@@ -97,6 +99,12 @@ NEUTRAL_PERF = NEUTRAL_SMALL.replace(
     "of moderate size (5-40 changed lines), and the four changes must be of DIFFERENT kinds, chosen from e.g.:",
     "of medium size (15-60 changed lines), each in a DIFFERENT function or file of the anchored code, written the way a maintainer REDUCING ALLOCATIONS AND COPIES would, e.g.: a two-pass encoder that first adds up the size and then fills one pre-sized buffer at a running offset (or appends onto one buffer with the right capacity); a decoder that walks the input with an integer offset instead of re-slicing it (or the other way round); explicit index arithmetic instead of temporary sub-slices; a local scratch array instead of a heap slice; a length or key computed once and reused; copy() with computed bounds instead of append; a small array or sorted slice instead of a map where the key space is tiny; loop fusion; an early exit for the common case that returns exactly what the general path would; strings.Builder / strconv instead of fmt for a String method. Ownership must stay as it is: whatever the original copied must still be copied, whatever was fresh must still be fresh, nothing new may be shared between calls. Besides these you may still use:")
 
+NEUTRAL_ADDITIVE = NEUTRAL_SMALL.replace(
+    "Your task: produce FOUR independent, realistic, BEHAVIOUR-PRESERVING changes (call them a, b, c, d)",
+    "Your task: produce THREE independent, realistic, BEHAVIOUR-PRESERVING changes (call them t, u, v)").replace(
+    "of moderate size (5-40 changed lines), and the four changes must be of DIFFERENT kinds, chosen from e.g.:",
+    "of medium size (10-60 changed lines), each in a DIFFERENT function or file of the anchored code (or of code it calls), of the kind a maintainer doing FEATURE or HARDENING work nearby would commit WITHOUT changing anything the property talks about: t = ADDITIVE work (a new exported accessor / Clone / Equal / Validate / String method or a new helper next to the anchored code, which existing code starts to use where it is exactly equivalent; a new optional parameter object or functional option whose default reproduces today's behaviour; extra detail in error messages or wrapped errors with the same nil / non-nil outcome; new named constants or typed enums for magic numbers; splitting a file or moving a type with its methods); u = HARDENING outside the property's quantifier (a stricter check that rejects only inputs the property does not quantify over, returning an error where the code used to misbehave or accept garbage; an explicit nil / empty / overflow guard before work that would have failed anyway with an error; bounds made explicit before an index) - be careful that nothing inside the quantifier is rejected; v = a clean-up of your choice that a code reviewer asked for (dead code and unused parameters removed, duplicated code between two sibling payloads unified in a shared unexported helper, receiver or variable names made consistent, a long function split in two, error variables declared once). Besides these you may still use:")
+
 NEUTRAL_LARGE = NEUTRAL_SMALL.replace(
     "Your task: produce FOUR independent, realistic, BEHAVIOUR-PRESERVING changes (call them a, b, c, d)",
     "Your task: produce TWO independent, realistic, BEHAVIOUR-PRESERVING changes (call them e and f)").replace(
@@ -123,8 +131,8 @@ def main():
                 fl = "coordinated" if pid in coordset else "disguised"
             txt = SEED.replace("@FLAVOUR@", FLAVOURS[fl])
         else:
-            txt = {"small": NEUTRAL_SMALL, "medium": NEUTRAL_MEDIUM, "large": NEUTRAL_LARGE, "modern": NEUTRAL_MODERN, "perf": NEUTRAL_PERF}[flavour]
-            txt = txt.replace("@DIRS@", {"small": "a, b, c, d", "medium": "g, h, i", "large": "e, f", "modern": "j, k, l", "perf": "q, r, s"}[flavour])
+            txt = {"small": NEUTRAL_SMALL, "medium": NEUTRAL_MEDIUM, "large": NEUTRAL_LARGE, "modern": NEUTRAL_MODERN, "perf": NEUTRAL_PERF, "additive": NEUTRAL_ADDITIVE}[flavour]
+            txt = txt.replace("@DIRS@", {"small": "a, b, c, d", "medium": "g, h, i", "large": "e, f", "modern": "j, k, l", "perf": "q, r, s", "additive": "t, u, v"}[flavour])
         txt = txt.replace("@BASE@", base).replace("@ID@", pid).replace("@PROP@", json.dumps(props[pid], indent=1))
         open(os.path.join(base, pid + ".prompt.txt"), "w").write(txt)
     print("prepared", len(ids), "worktrees and prompts under", base)
